@@ -122,6 +122,25 @@ fn body(e: &Exhaust, cnt: &mut Vec<(String, u64)>) -> Result<(), (String, String
             format!("port-0 bind failed AddrInUse after {n_ok} allocations although only {} of 16384 ports are in use", used.len()),
         ));
     }
+    // a TCP connect needs an ephemeral port too: none is left
+    if e.tcp {
+        w.cur(0);
+        let mut fut = Box::pin(turmoil_net::shim::tokio::net::TcpStream::connect(SocketAddr::new(lo, 9)));
+        let r = std::future::Future::poll(fut.as_mut(), &mut engine::noop_cx());
+        match r {
+            std::task::Poll::Ready(Err(er)) if er.kind() == ErrorKind::AddrInUse => count("exhaustion_connect_checks", 1),
+            std::task::Poll::Ready(Err(er)) => {
+                return Err(("exhaustion-wrong-error".into(), format!("range full: connect failed with {:?}, expected AddrInUse", er.kind())))
+            }
+            _ => {
+                w.cur(0);
+                drop(fut);
+                return Err(("ephemeral-range-overrun".into(), "range full: a connect still obtained a local port".into()));
+            }
+        }
+        w.cur(0);
+        drop(fut);
+    }
     // freeing one makes exactly that one available (three times, incl. a
     // pre-bound one)
     for round in 0..3 {
